@@ -11,7 +11,7 @@
 /* ------------------------------------------------------------------ world */
 
 #define VF_NIFACE      2
-#define VF_ARENA_SIZE  (1u << 20)
+#define VF_ARENA_SIZE  (1u << 22)
 #define VF_MAXMTU      9216
 #define VF_TRACE_MAX   4096           /* port-call records per transition   */
 #define VF_TRACE_BYTES (1u << 20)     /* transmitted bytes per transition   */
